@@ -9,7 +9,7 @@ CLAIMS = {
           "every sink write is dominated by `finalized=true` behind the finalized test (nothing before finish, nothing after, once); frame-writing "
           "entries succeed only on the flag-false edge; the byte counter is updated only beside the write with len(buf); MuxerStats fields are "
           "sourced from the right queues/counter and only on the Ok edge. Static rules give the for-all-histories part tests cannot; numeric tolerance of duration is not decided. R6: the end time of a queue whose presentation times are not monotone in queue order ranges over every sample; each queue is paired with the last-delta field its own writer maintains."
-          " R5 also: the sample queues the statistics are read from are append-only in the whole library (store inventory).",
+          " R5 also: the sample queues the statistics are read from are append-only in the whole library (store inventory). R5 also: nothing but the pure end-time function of the queues enters duration_secs. R7: a refused write leaves no trace in the state the statistics are computed from (C05.R1 instances).",
   "note": "Trusted: rustc MIR, std Write::write_all contract, externals classification. Not decided: +-1 tick tolerance of duration_secs; "
           "R6 (end time = last sample's pts+delta is the maximum only when pts is monotone) is recorded as a known finding when it applies."},
  "C13": {
@@ -18,14 +18,14 @@ CLAIMS = {
           "every Result of a sink write (and of each writer-tree call) is consumed by `?` or returned, and the Break edge never re-enters the writer tree, so the buffers offered to the sink form one fixed "
           "sequence that stops at the first failure (prefix property, error iff a write failed); the finalized flag is set before the first write and never cleared (nothing is written afterwards). "
           "Tests can only sample failure points; the rule covers all of them structurally."
-          " The sink call itself runs once per helper invocation (not on a CFG cycle) and its Result is returned / `?`-propagated unseen (no retry).",
+          " The sink call itself runs once per helper invocation (not on a CFG cycle) and its Result is returned / `?`-propagated unseen (no retry). R6: the crate's own caller (CLI) hands the library the created File itself, not a deferring adaptor.",
   "note": "Relies on std's documented write_all contract for Interrupted/short writes. Panic-freedom of the finalize path is the C12 obligation set restricted to the writer tree (known findings shared by key)."},
  "C17": {
   "technique": "whole-program effect analysis over the resolved call graph + trait-solver auto-trait query + MIR alpha-equivalence / delegation check",
   "text": "Decides the structural clauses of C17: no clock/RNG/env/fs/process/thread/atomic/TypeId/static/hash-order effect is reachable from any public muxing entry point (negative fact over all paths); the thread-local log is write-only for muxing; "
           "the sink type is used only through std::io::Write; Muxer<W>/MuxerBuilder<W>: Send<=W: Send and Sync<=W: Sync for all W (solver query in a parameter environment, non-vacuous), FragmentedMuxer: Send+Sync; "
           "finish/flush/finish_with_stats/finish_in_place are single pass-through delegations, builder aliases have alpha-equal bodies, codec None yields no audio track."
-          " R6: every API route to title / language / creation time stores the parameter itself (no rewriting on one route).",
+          " R6: every API route to title / language / creation time stores the parameter itself (no rewriting on one route). R5 also: MuxerBuilder::build tabulated - codec None builds the same muxer as no audio call.",
   "note": "Trusted: classification of external callees (lib/mx/externals.py), rustc trait solver. One reasoned exception: Metadata::with_current_time (explicit request for 'now' as input). Not decided: f64 accumulation of encode_* vs explicit timestamps (numeric)."},
  "C05": {
   "technique": "interprocedural error-path purity (store inventory x CFG reachability to Err/`?` exits) on MIR",
@@ -52,13 +52,13 @@ CLAIMS = {
   "text": "Decides the chain queued sample i -> table entry i -> file offset of its bytes for all histories and configurations: one pure schedule drives offset assignment and streaming; per track the pushed offset list, the streamed queue, "
           "the cursor step and the stsz/stss/stts tables belong together; initial cursor == symbolic width of everything emitted before the sample region (both layouts, incl. placeholder==final moov width); per-track schedule order == queue order "
           "(leading sort-key field must be the writer-enforced monotone one); payload converter per codec and key flag unmodified; mdat size == 8 + streamed payloads. Found and repaired the B-frame+audio chunk-offset permutation defect."
-          " R4 also: entries of one track with equal leading sort keys keep queue order (stable sort or index in the key).",
+          " R4 also: entries of one track with equal leading sort keys keep queue order (stable sort or index in the key). R6 also: the public write entry points hand the writer the call's own payload slice and key flag.",
   "note": "Not decided: byte equality of converter outputs for concrete inputs (framing is C14). Trusted: std sort_by_key/enumerate/map/collect contracts, interpreter."},
  "C02": {
   "technique": "layout interpretation: derived box tree of every emitted stream vs containment/cardinality schema; symbolic width identities",
   "text": "For every configuration at once: the box constructor writes size == 8+len(payload) == its width; every container payload is child boxes only (so sizes tile recursively for every input); each alternative of each container "
           "matches a schema transcribed from ISO/IEC 14496-12 (mandatory boxes once, optional at most once, no strangers, one-of groups); top-level order/cardinality of progressive file, init segment (mvex/trex) and media segment; count fields == entries emitted; mdat size == 8 + payloads. Cross-table: the sample-to-chunk table gets an entry only on paths where chunk count and samples-per-chunk are entailed non-zero."
-          " R6: stts/ctts run-length builders account for every element (table counts agree with stsz/stco).",
+          " R6: stts/ctts run-length builders account for every element (table counts agree with stsz/stco). R7: one track per configured stream - the builder enables the writer's audio track iff a codec other than None was configured (tabulated).",
   "note": "32-bit size overflow is C16. Trusted: schema transcription, interpreter."},
  "C08": {
   "technique": "symbolic width identities and production equality on the file productions; MIR data flow of the fast_start flag",
@@ -67,13 +67,13 @@ CLAIMS = {
   "note": "R6 (u32 cursor overflow guard missing in the standard layout) is reported under C16."},
  "C15": {
   "technique": "layout interpretation: the sample region as a sort-permutation of the two queues; key shape analysis",
-  "text": "The sample region of every A/V layout is sorted(key)[video queue ++ audio queue] with key = (timestamp field, rank Video<Audio, queue index): by std's sort_by_key contract this is the merge by timestamp with video first on ties; the same schedule drives offsets and streaming; per-track order is queue order.",
+  "text": "The sample region of every A/V layout is sorted(key)[video queue ++ audio queue] with key = (timestamp field, rank Video<Audio, queue index): by std's sort_by_key contract this is the merge by timestamp with video first on ties; the same schedule drives offsets and streaming; per-track order is queue order. R4: both tracks' sort keys come from the one tick conversion of the call's own timestamp (C03.R1 instances).",
   "note": "Relies on the documented contract of slice::sort_by_key (stable, ordered by key)."},
  "C03": {
   "technique": "data-dependence slices on MIR + symbolic moov production (durations / composition offsets)",
   "text": "Decides the shape behind the timing property for all timestamp sequences: every tick handed to the inner writer is cast(round(own timestamp parameter * 90000)) with no state in its slice (no drift by construction); the duration back-patch is this-minus-previous of the writer's monotone timestamp, stored to the last sample and the last-delta field; "
           "the final sample's fall-back is the track's own last delta; mdhd duration is the sum over the list behind stts; composition offsets are pts-dts and ctts is conditional on the fold of `offset != 0` over exactly those offsets. R6: the stts/ctts run-length encoders extend a run only under exact equality with the current element and otherwise push (1, element)."
-          " R6 also: every element reaches the increment or the push; R4 also: every delta stts emits is a function of the current element only.",
+          " R6 also: every element reaches the increment or the push; R4 also: every delta stts emits is a function of the current element only. R5 also: the ctts encoder iterates exactly the list of pts - dts (no re-basing or filtering in between).",
   "note": "Not decided: arithmetic of the run-length encoders and f64 rounding for particular cadences (value-level)."},
  "C04": {
   "technique": "guard extraction (dominating switch edges + operand-role slices) on MIR; total-match error map via HIR interpretation; typestate dominance; complete finite-domain tabulation of extracted classifier / validator tables (interpretation of the dumped MIR, nothing executed)",
@@ -81,19 +81,19 @@ CLAIMS = {
           "success exits lie on the not-finished edge; the internal->public error conversion equals the documented table; sibling video entry points maintain each other's monotonicity state (defect found and repaired); ADTS/Opus validators are guarded on the frame bytes / codec arm."
           " R7: encode_video's own keyframe decision is tabulated over all 256 NAL header bytes (1- and 2-NAL frames) by finite-domain interpretation of the dumped MIR and must equal the codec module's public classifier (H.264, H.265)."
           " R8: ADTS acceptance table (every header field over all its values, every short length) by finite-domain interpretation. R9: the VP9 keyframe classifier and configuration extractor accept the same frame-header and marker bytes."
-          " R10: finish refuses only when already finished, on a sink failure or on a 32-bit size limit (all error exits / `?` of the finalisation tree). R11: parameter sets are found wherever they stand in the first keyframe (C07.R13 instances). R4 also: a state field read by any entry's rejection guard and maintained by one video entry is maintained by its sibling.",
+          " R10: finish refuses only when already finished, on a sink failure or on a 32-bit size limit (all error exits / `?` of the finalisation tree). R11: parameter sets are found wherever they stand in the first keyframe (C07.R13 instances). R4 also: a state field read by any entry's rejection guard and maintained by one video entry is maintained by its sibling. R11 also: the AV1 sequence header is found wherever it stands among the OBUs (C07.R15). R12: MuxerBuilder::build tabulated over codecs x rates x channel counts - a configured audio stream is kept with its values, none appears otherwise.",
   "note": "Table transcribed from docs/contract.md and the property statement (lib/mx/rules/c04.py TABLE). NaN/sub-tick behaviour of f64 comparisons is value-level and not decided. Consuming finish() is a type-level fact (thorough-tier witness)."},
  "C07": {
   "technique": "layout interpretation (stsd selection, records) + HIR evaluation of writer/builder functions + MIR guard extraction for parameter-set slots; read-program extraction vs specification syntax; complete finite-domain tabulation of bit-reader / slot tables (interpretation of the dumped MIR, nothing executed)",
   "text": "Sample-entry type is selected by the config variant, the variant is built from the configured codec by the matching extractor, fall-backs and the fragmented selection chain are checked per codec; every parameter-set slot receives the iterated NAL unit itself, only while empty and only for the spec's NAL type constant (7/8, 32/33/34); "
           "audio entry fields and the AudioSpecificConfig/dOps derive from the one audio configuration; av1C/vpcC field bytes are values of the parsed configuration. Two genuine defects recorded (zero-frame non-H.264 fall-back to avc1; constant fragmented av1C fields). R7-R9: hvcC profile/tier/level bytes are the identity function of the SPS bytes they summarise (all 256 values of the extracted builder+accessor expression); AAC samplingFrequencyIndex match table == ISO/IEC 14496-3 table 1.18; av1C flag bits per configuration field; the AV1 sequence-header parser's read program (transcribed from typed HIR) reads the same bit widths in the same order and yields the same configuration values as a transcription of AV1 spec 5.5.1-5.5.5 on every enumerated syntax path (about 2700 paths)."
           " R10: offset-passing header parsers (VP9) read consecutive fields - every read starts at the offset returned by the read before it on every path (provenance abstract interpretation)."
-          " R11: VP9 byte-packed fields occupy disjoint non-empty bit ranges. R12: AV1 bit reader primitives and uvlc tabulated against f(n)/uvlc(). R13: parameter-set slots by NAL header byte (256 values, first wins). R7/R8 also cover the init segment's hvcC/av1C. R14: parse_obu_header tabulated over all 256 header bytes against AV1 5.3.",
+          " R11: VP9 byte-packed fields occupy disjoint non-empty bit ranges. R12: AV1 bit reader primitives and uvlc tabulated against f(n)/uvlc(). R13: parameter-set slots by NAL header byte (256 values, first wins). R7/R8 also cover the init segment's hvcC/av1C. R14: parse_obu_header tabulated over all 256 header bytes against AV1 5.3. R15: extract_av1_config tabulated over leading OBU sequences - exactly the sequence-header OBU reaches the parser, None iff absent.",
   "note": "Not decided: bit-level correctness of the AV1 sequence-header and VP9 header parsers (value-level). Shares the record-layout instances with C19."},
  "C09": {
   "technique": "layout interpretation: enumeration of the audio trak production for a track-start offset mechanism",
   "text": "Necessary condition only: a track timeline built from stts starts at 0, so preserving an A/V start offset needs an edit list (or a field depending on both first timestamps) in the audio trak. The rule enumerates the audio trak production of every A/V layout; on the pinned tree no mechanism exists: a genuine defect, recorded as a known finding (not small to repair). R2: no drift - run-length tables merge only exactly equal deltas (shared with C03.R6)."
-          " R1 also: an edit list must depend on the video track's first timestamp. R2 also: stts deltas are the elements' own durations.",
+          " R1 also: an edit list must depend on the video track's first timestamp. R2 also: stts deltas are the elements' own durations. R3: both tracks use the one stateless tick conversion (C03.R1 instances). R4: the video ctts holds pts - dts and is present whenever an offset is non-zero (C03.R5 instances).",
   "note": "Decides that the property cannot hold in general while the mechanism is absent; when one appears, presence and data dependence are checked, not its +-1 tick arithmetic (value-level)."},
  "C12": {
   "technique": "whole-library panic/termination obligation inventory on MIR (overflow checks on) discharged by dominating-guard entailment (Fourier-Motzkin over guards, asserts, loop-header invariants, caller-established parameter facts, callee postconditions), finite-domain evaluation of extracted expressions, and named lemmas with machine-checked side conditions",
@@ -118,7 +118,7 @@ CLAIMS = {
   "technique": "layout interpretation of the media-segment and init-segment builders + MIR slices in flush_segment",
   "text": "trun per-sample fields have the required operator shape (duration = next.dts - this.dts, cts = pts - dts signed, flags constants with the non-sync bit exactly on the non-sync arm, size = len(data)); tfdt/trun are version 1; the base decode time handed to the builder depends on the segment's own samples (defect found and repaired: it was estimated from the previous segment); "
           "the init segment is built from the construct-time config only, the config has no writer after construction, and the cache is consulted first. R5: queued samples are immutable between write and segment building (flags/times written are the submitted ones)."
-          " R5 also: the queued record's fields are the call's own parameters unmodified (sync flag, pts, dts).",
+          " R5 also: the queued record's fields are the call's own parameters unmodified (sync flag, pts, dts). R2 also: the base decode time is the own first DTS, or that minus a write-once state field in exact arithmetic (saturating only when the subtrahend is a decode time).",
   "note": "Not decided: numeric monotonicity of base times and the 3000-tick default of a lone sample."},
  "C14": {
   "technique": "layout interpretation of the converters + exhaustive evaluation of the *extracted* ADTS bit-field formulas + MIR guard extraction",
@@ -130,13 +130,13 @@ CLAIMS = {
   "technique": "layout interpretation: user-data production vs iTunes metadata layout; non-interference of the metadata parameter over the whole moov production",
   "text": "udta is emitted iff the item list is non-empty and has the layout udta>meta(0)>hdlr(mdir)+ilst>items with data(type 1, locale 0) followed by the title's bytes verbatim; the `metadata` parameter occurs nowhere in the moov production except under udta and in the mdhd language field; both mdhd language fields derive from metadata.language with the `und` default. R4: the (year, month, day) expressions extracted from the creation-date conversion equal the proleptic Gregorian calendar on every day of 400-year eras (exhaustive evaluation of the extracted expressions; year affine in the era). R5: single-attribute metadata setters update in place; only with_metadata(Metadata) replaces."
           " R6: both language encoders evaluated on all 26^3 codes against the ISO formula. R4 also: day count = secs/86400 and the hour/minute/second expressions evaluated for all 86400 seconds of a day."
-          " R5 also: attribute setters store the parameter itself, not rewritten in place; R3 also: the string handed to the language packing is metadata.language or `und` through Option plumbing only.",
+          " R5 also: attribute setters store the parameter itself, not rewritten in place; R3 also: the string handed to the language packing is metadata.language or `und` through Option plumbing only. R7: the CLI never replaces the metadata wholesale after setting part of it (C20.R2 ordering instances).",
   "note": "Not decided: the calendar conversion and the 5-bit language packing as arithmetic functions; termination for huge creation times is C12."},
  "C20": {
   "technique": "MIR rules on the bin crate: single-consumer flow of the output File, argument slices, dominance by the Ok edge of finish, store inventory of the verdict flag, loop-variant guard extraction",
   "text": "The File created for the output path is consumed only by MuxerBuilder::new and nothing else in the mux command writes files; every builder/muxer argument is sourced from the matching CLI option (documented default codecs), one frame at t=0 with key=true; both completion messages are dominated by the Ok edge of finish() and all library Results are propagated, main returns the Result; "
           "the validate verdict is initialised true, only stored false, and stored false on every error branch, the hex validator rejects under {empty, odd, non-hex}; the info box walk advances by a size guarded non-zero and is bounded by the buffer length. main hands every parsed option to the command parameter of the same name; no builder call replaces a configuration field wholesale after another call configured it; on the mux path no Result is discarded through .ok()/unwrap_or*/err()."
           " R5: the non-zero guard tests the very value added to the cursor. R7: reported frame counts are incremented unconditionally, exactly once after each successful library frame write."
-          " R4 also: the verdict is cleared only under the documented condition chains; odd-length guard decided structurally.",
+          " R4 also: the verdict is cleared only under the documented condition chains; odd-length guard decided structurally. R1 also: the library's sink is the created File itself. R2 also: the payload handed to write_video/write_audio is the decoded file content itself, never modified.",
   "note": "Not decided: byte equality of the CLI output with an in-process library run; clap's own parsing."},
 }
